@@ -473,14 +473,13 @@ Verdict World::check_products()
       std::string d = product_tracks(l.type(), l.elements());
       if (not d.empty()) return Verdict::fail(prop + "/product-tracking/parameter_list", "Parameter_list " + ref_str(nref(l)) + ": " + d);
    }
+   // (also for a scope into which an insertion failed: the type follows the members the scope lists, whatever they are)
    for (auto& kv : scopes) {
-      if (tainted.count(kv.first)) continue;
       const ipr::Scope& sc = *kv.first;
       std::string d = product_tracks(sc.type(), sc.elements());
       if (not d.empty()) return Verdict::fail(prop + "/product-tracking/scope", "Scope " + ref_str(nref(sc)) + ": " + d);
    }
    for (auto& h : homos) {
-      if (tainted.count(h.scope)) continue;
       std::string d = product_tracks(h.scope->type(), h.scope->elements());
       if (not d.empty()) return Verdict::fail(prop + "/product-tracking/homogeneous_scope", "Scope " + ref_str(nref(*h.scope)) + ": " + d);
    }
@@ -580,9 +579,56 @@ namespace {
    }
 }
 
+// A scope into which an insertion was cut short by an injected allocation failure.  Each such insertion may or may not
+// have taken effect (the library documents neither), so the contents are not compared one to one with the model.  What was
+// acknowledged before stays right, and the scope stays consistent with itself:
+//  * every declaration entered successfully is listed, in entry order; besides them at most one unknown member per
+//    failed insertion;
+//  * the scope's type is the product of the types of the members it lists, in that order (C09, by observation);
+//  * every listed declaration belongs to its own declaration-set, the members of a declaration-set are pairwise distinct,
+//    and master() is the set's first member (C07, by observation); everything reached is touched (C19).
+Verdict World::check_tainted_scope(const ScopeModel& sm)
+{
+   const ipr::Scope& sc = *sm.scope;
+   const std::string tag = prop + "/scope/after-bad_alloc";
+   const auto& el = sc.elements();
+   const size_t n = el.size();
+   const int budget = taint_count.count(sm.scope) ? taint_count[sm.scope] : 1;
+   if (n < sm.decls.size() or n > sm.decls.size() + size_t(budget))
+      return Verdict::fail(tag + "/elements-size", "scope lists " + std::to_string(n) + " declarations; " + std::to_string(sm.decls.size()) + " insertions succeeded and " + std::to_string(budget) + " failed");
+   size_t next = 0;
+   for (size_t i = 0; i < n and next < sm.decls.size(); ++i)
+      if (nref(*el.position(i)) == nref(*sm.decls[next].decl)) ++next;
+   if (next != sm.decls.size())
+      return Verdict::fail(tag + "/entry-order", "the declarations entered successfully are not all listed in entry order (" + std::to_string(next) + " of " + std::to_string(sm.decls.size()) + " found)");
+   const ipr::Product* prod = ipr::util::view<ipr::Product>(sc.type());
+   if (prod == nullptr) return Verdict::fail(tag + "/type-not-product", "the type of a scope is not a Product");
+   if (prod->size() != n)
+      return Verdict::fail(tag + "/type-size", "scope type has " + std::to_string(prod->size()) + " components, the scope lists " + std::to_string(n) + " declarations");
+   for (size_t i = 0; i < n; ++i) {
+      const ipr::Decl& d = *el.position(i);
+      if (nref((*prod)[i]) != guarded_type(d)) return Verdict::fail(tag + "/type-component", "component " + std::to_string(i) + " of the scope's type is not the type of the declaration listed at " + std::to_string(i));
+      const auto& ds = d.decl_set();
+      bool self = false;
+      std::set<Ref> seen;
+      for (size_t k = 0; k < ds.size(); ++k) {
+         Ref m = nref(*ds.position(k));
+         (void) ds.position(k)->category;
+         if (m == nref(d)) self = true;
+         if (not seen.insert(m).second) return Verdict::fail(tag + "/decl-set-duplicate", "decl_set() of listed declaration " + std::to_string(i) + " lists one declaration twice");
+      }
+      if (not self) return Verdict::fail(tag + "/decl-set-self", "listed declaration " + std::to_string(i) + " is not a member of its own decl_set()");
+      Ref m = ABSENT;
+      try { m = nref(d.master()); }
+      catch (const std::logic_error&) { }
+      if (ds.size() > 0 and m != nref(*ds.position(0))) return Verdict::fail(tag + "/master", "master() of listed declaration " + std::to_string(i) + " is not the first member of its decl_set()");
+   }
+   return Verdict::ok();
+}
+
 Verdict World::check_scope(const ScopeModel& sm)
 {
-   if (tainted.count(sm.scope)) return Verdict::ok();
+   if (tainted.count(sm.scope)) return check_tainted_scope(sm);
    const ipr::Scope& sc = *sm.scope;
    const std::string tag = prop + "/scope";
    const auto& el = sc.elements();
@@ -1064,8 +1110,21 @@ Ref World::apply(const Op& op)
       // promises nothing about it); everything returned earlier still is.
       last_op_faulted = true;
       ++faults_fired;
-      if (touching != nullptr) tainted.insert(touching);
+      if (touching != nullptr) { tainted.insert(touching); ++taint_count[touching]; }
       ctx.event("%s -> bad_alloc (injected)", op_name(code));
+      if (opt.retry_after_fault and (uint64_t(op.a[4]) + uint64_t(op.fault)) % 3 != 0) {
+         // the client asks for the same thing again (two times in three); no failure is injected this time
+         ++retries;
+         sim::heap::begin_op(step);
+         touching = nullptr;
+         try {
+            r = dispatch(op);
+            trace_op("retry", op, r);
+         }
+         catch (const std::bad_alloc&) { sim::g_sut_depth = 0; throw; }
+         ctx.event("%s retried", op_name(code));
+         return r;
+      }
       return nullptr;
    }
    sim::heap::arm_fault(0);
